@@ -1171,6 +1171,7 @@ static int32 tls13WriteCertificateVerify(ssl_t *ssl, sslBuf_t *out)
     {
         psTraceErrr("Failed to negotiate CertificateVerify sig alg\n");
         ssl->err = SSL_ALERT_HANDSHAKE_FAILURE;
+        psDynBufUninit(&cvBuf);
         return SSL_SEND_RESPONSE;
     }
     psTracePrintTls13SigAlg(INDENT_HS_MSG,
@@ -1188,6 +1189,7 @@ static int32 tls13WriteCertificateVerify(ssl_t *ssl, sslBuf_t *out)
         rc = tls13TranscriptHashSnapshot(ssl, trHash);
         if (rc < 0)
         {
+            psDynBufUninit(&cvBuf);
             return rc;
         }
 
@@ -1217,6 +1219,7 @@ static int32 tls13WriteCertificateVerify(ssl_t *ssl, sslBuf_t *out)
                 &ssl->sec.tls13CvSigLen);
         if (rc < 0)
         {
+            psDynBufUninit(&cvBuf);
             return rc;
         }
 
@@ -1263,6 +1266,7 @@ static int32 tls13WriteCertificateVerify(ssl_t *ssl, sslBuf_t *out)
                 psFree(ssl->sec.tls13CvSig, ssl->hsPool);
                 psFree(ssl->hsPool, tbs);
                 psTraceErrr("Could not verify own sig!!\n");
+                psDynBufUninit(&cvBuf);
                 return rc;
             }
 # endif
